@@ -58,6 +58,8 @@ structure St where
   fault : Option (Nat × Resp) := none
   /-- an injected fault changed an answer the code looks at -/
   faulted : Bool := false
+  /-- the answer that was substituted -/
+  faultResp : Resp := .none
   snapTime : Option Nat := none
 
 def fmtResp : Resp → String
@@ -194,10 +196,12 @@ def post (sq : Seq) (st : St) (out : PyRes Val) : Option String :=
     | .ok _ =>
       if !(sameRw b0 b && b.lockByte == b0.lockByte && b.snap == b0.snap) then some "memory changed by a read"
       else if st.faulted then
-        match out with
-        | .error .MemoryLocationNotImplemented => none
-        | .error .ResponseError => none
-        | _ => some "fault must raise MemoryLocationNotImplemented or ResponseError"
+        match st.faultResp, out with
+        | .none, .error .MemoryLocationNotImplemented => none
+        | .err, .error .ResponseError => none
+        | .none, _ => some "a silent read must raise MemoryLocationNotImplemented"
+        | .err, _ => some "a garbled answer must raise ResponseError"
+        | _, _ => none
       else if !static && b0.snap.isNone then none
       else
         let live := listens u0 arg && bank == b0.number
@@ -218,11 +222,12 @@ def post (sq : Seq) (st : St) (out : PyRes Val) : Option String :=
                else b.lockByte != (if latched then 0xFF else b0.lockByte)) then
         some s!"lock byte left at {b.lockByte}"
       else if st.faulted then
-        match out with
-        | .error .MemoryLocationNotImplemented => none
-        | .error .ResponseError => none
-        | .ok (.names _) => none
-        | _ => some "fault: unexpected outcome"
+        match st.faultResp, out with
+        | .err, .error .ResponseError => none
+        | .err, _ => some "a garbled answer must raise ResponseError"
+        | _, .error .MemoryLocationNotImplemented => none
+        | _, .ok (.names _) => none
+        | _, _ => some "fault: unexpected outcome"
       else if !live then
         (if out == .error .MemoryLocationNotImplemented then none else some "absent bank: want MemoryLocationNotImplemented")
       else
@@ -287,6 +292,7 @@ def handleStep (st : St) : List String → St × String
           | .readMemoryLocation .. | .writeMemoryLocation .. | .queryContentDTR0 .. => true
           | _ => false
         let faulted := if readsAnswer then faulted else st.faulted
+        let faultResp := if faulted && !st.faulted then r else st.faultResp
         let (model', div) := match st.diverged, st.model with
           | some d, m => (m, some d)
           | none, some (.send c' k) =>
@@ -298,7 +304,7 @@ def handleStep (st : St) : List String → St × String
           | none, some t => some t
           | s, _ => s
         ({ st with unit := unit', idx := st.idx + 1, model := model', diverged := div,
-                   faulted := faulted, snapTime := snapTime }, fmtResp r)
+                   faulted := faulted, faultResp := faultResp, snapTime := snapTime }, fmtResp r)
     | _, _ => (st, "bad-op")
   | "end" :: rest =>
     let out? : Option (PyRes Val) := match rest with
